@@ -227,7 +227,7 @@ pub fn raw_op_strategy(w: &Weights) -> BoxedStrategy<RawOp> {
     let mut v: Vec<(u32, BoxedStrategy<RawOp>)> = Vec::new();
     v.push((w.contrib, (any::<u8>(), any::<u8>(), value_strategy(), carrier_strategy(), any::<u8>()).prop_map(|(sel, which, v, carrier, link)| RawOp::Contrib { sel, which, v, carrier, link }).boxed()));
     if w.other_cc > 0 {
-        v.push((w.other_cc, (any::<u8>(), 0u8..128, value_strategy(), carrier_strategy()).prop_map(|(sel, cn, v, carrier)| RawOp::OtherCc { sel, cn, v, carrier }).boxed()));
+        v.push((w.other_cc, (any::<u8>(), prop_oneof![3 => 0u8..128, 2 => prop::sample::select(SPEC_VALUES.to_vec())], value_strategy(), carrier_strategy()).prop_map(|(sel, cn, v, carrier)| RawOp::OtherCc { sel, cn, v, carrier }).boxed()));
     }
     if w.other_msg > 0 {
         v.push((w.other_msg, (any::<u8>(), 0u8..7, 0u8..128, 0u8..128, carrier_strategy()).prop_map(|(sel, hi, d1, d2, carrier)| RawOp::OtherChannelMsg { sel, hi, d1, d2, carrier }).boxed()));
